@@ -404,6 +404,131 @@ fn c15d(args: &[Val]) -> Val {
     c("c15d", vec![Val::Bool(d)])
 }
 
+/// cons a b : self-consistency (iterator std methods, cross-type comparisons, component Eq/Ord/Hash,
+/// platform = native) plus the parity data of partially consumed Components
+fn cons<A: Api>(suffix: &str, args: &[Val]) -> Val {
+    let (a, b_) = (args[0].bytes(), args[1].bytes());
+    if !A::accepts(a) || !A::accepts(b_) {
+        return not_utf8();
+    }
+    let (mut bad, par) = A::cons(a, b_);
+    cross_types(suffix, a, b_, &mut bad);
+    c("cons", vec![Val::L(bad), par])
+}
+
+fn cross_byte<T: for<'enc> Encoding<'enc>>(a: &[u8], b_: &[u8], bad: &mut Vec<Val>) {
+    use std::borrow::Cow;
+    let (pa, pb) = (Path::<T>::new(a), Path::<T>::new(b_));
+    let (ba, bb) = (pa.to_path_buf(), pb.to_path_buf());
+    let eq = pa == pb;
+    let ord = pa.partial_cmp(pb);
+    crate::cross!(bad, "pathbuf/path", eq, ord, ba, *pb);
+    crate::cross!(bad, "pathbuf/&path", eq, ord, ba, pb);
+    crate::cross!(bad, "cow/path", eq, ord, Cow::Borrowed(pa), *pb);
+    crate::cross!(bad, "cow/pathbuf", eq, ord, Cow::Borrowed(pa), bb);
+    crate::cross!(bad, "pathbuf/[u8]", eq, ord, ba, *b_);
+    crate::cross!(bad, "pathbuf/&[u8]", eq, ord, ba, b_);
+    crate::cross!(bad, "pathbuf/cow[u8]", eq, ord, ba, Cow::Borrowed(b_));
+    crate::cross!(bad, "pathbuf/vec", eq, ord, ba, b_.to_vec());
+    crate::cross!(bad, "path/[u8]", eq, ord, *pa, *b_);
+    crate::cross!(bad, "path/&[u8]", eq, ord, *pa, b_);
+    crate::cross!(bad, "path/vec", eq, ord, *pa, b_.to_vec());
+    crate::cross!(bad, "&path/vec", eq, ord, pa, b_.to_vec());
+    crate::cross!(bad, "&path/cow[u8]", eq, ord, pa, Cow::Borrowed(b_));
+}
+
+fn cross_utf8<T: for<'enc> Utf8Encoding<'enc>>(a: &str, b_: &str, bad: &mut Vec<Val>) {
+    use std::borrow::Cow;
+    let (pa, pb) = (Utf8Path::<T>::new(a), Utf8Path::<T>::new(b_));
+    let (ba, bb) = (pa.to_path_buf(), pb.to_path_buf());
+    let eq = pa == pb;
+    let ord = pa.partial_cmp(pb);
+    crate::cross!(bad, "utf8pathbuf/path", eq, ord, ba, *pb);
+    crate::cross!(bad, "utf8pathbuf/&path", eq, ord, ba, pb);
+    crate::cross!(bad, "utf8cow/path", eq, ord, Cow::Borrowed(pa), *pb);
+    crate::cross!(bad, "utf8cow/pathbuf", eq, ord, Cow::Borrowed(pa), bb);
+    crate::cross!(bad, "utf8pathbuf/str", eq, ord, ba, *b_);
+    crate::cross!(bad, "utf8pathbuf/&str", eq, ord, ba, b_);
+    crate::cross!(bad, "utf8pathbuf/cowstr", eq, ord, ba, Cow::Borrowed(b_));
+    crate::cross!(bad, "utf8pathbuf/string", eq, ord, ba, b_.to_string());
+    crate::cross!(bad, "utf8path/str", eq, ord, *pa, *b_);
+    crate::cross!(bad, "utf8path/&str", eq, ord, *pa, b_);
+    crate::cross!(bad, "utf8path/string", eq, ord, *pa, b_.to_string());
+    crate::cross!(bad, "&utf8path/string", eq, ord, pa, b_.to_string());
+    crate::cross!(bad, "&utf8path/cowstr", eq, ord, pa, Cow::Borrowed(b_));
+}
+
+fn cross_types(suffix: &str, a: &[u8], b_: &[u8], bad: &mut Vec<Val>) {
+    let strs = match (std::str::from_utf8(a), std::str::from_utf8(b_)) {
+        (Ok(x), Ok(y)) => Some((x, y)),
+        _ => None,
+    };
+    match suffix {
+        "u" | "bu" => cross_byte::<UnixEncoding>(a, b_, bad),
+        "w" | "bw" => cross_byte::<WindowsEncoding>(a, b_, bad),
+        "pu" => {
+            cross_byte::<PlatformEncoding>(a, b_, bad);
+            // the platform encoding behaves like the native one, also through the platform-only conversions
+            let p = PlatformPath::new(a);
+            let n = Path::<NativeEncoding>::new(a);
+            let x = p.with_platform_encoding_checked().map(|x| x.into_vec());
+            let y = n.with_encoding_checked::<NativeEncoding>().map(|x| x.into_vec());
+            if x != y {
+                bad.push(c("platform:with_platform_encoding_checked", vec![]));
+            }
+            if p.with_platform_encoding().into_vec() != n.with_encoding::<NativeEncoding>().into_vec() {
+                bad.push(c("platform:with_platform_encoding", vec![]));
+            }
+            if n.with_platform_encoding_checked().map(|x| x.into_vec()) != y {
+                bad.push(c("platform:native.with_platform_encoding_checked", vec![]));
+            }
+        }
+        "u8" | "b8u" => {
+            if let Some((x, y)) = strs {
+                cross_utf8::<Utf8UnixEncoding>(x, y, bad)
+            }
+        }
+        "w8" | "b8w" => {
+            if let Some((x, y)) = strs {
+                cross_utf8::<Utf8WindowsEncoding>(x, y, bad)
+            }
+        }
+        "p8" => {
+            if let Some((x, y)) = strs {
+                cross_utf8::<Utf8PlatformEncoding>(x, y, bad);
+                let p = Utf8PlatformPath::new(x);
+                let n = Utf8Path::<Utf8NativeEncoding>::new(x);
+                let r1 = p.with_platform_encoding_checked().map(|z| z.into_string());
+                let r2 = n.with_encoding_checked::<Utf8NativeEncoding>().map(|z| z.into_string());
+                if r1 != r2 {
+                    bad.push(c("platform:utf8.with_platform_encoding_checked", vec![]));
+                }
+            }
+        }
+        "tu" | "tw" | "tbu" | "tbw" => {
+            let (pa, pb) = if suffix.ends_with('u') { (TypedPath::unix(a), TypedPath::unix(b_)) } else { (TypedPath::windows(a), TypedPath::windows(b_)) };
+            let eq = pa == pb;
+            crate::cross_eq!(bad, "typedpathbuf/typedpath", eq, pa.to_path_buf(), pb);
+            crate::cross_eq!(bad, "typedpath/typedpathbuf", eq, pa, pb.to_path_buf());
+        }
+        "t8u" | "t8w" | "tb8u" | "tb8w" => {
+            if let Some((x, y)) = strs {
+                let (pa, pb) = if suffix.ends_with('u') { (Utf8TypedPath::unix(x), Utf8TypedPath::unix(y)) } else { (Utf8TypedPath::windows(x), Utf8TypedPath::windows(y)) };
+                let eq = pa == pb;
+                crate::cross_eq!(bad, "utf8typedpathbuf/utf8typedpath", eq, pa.to_path_buf(), pb);
+                crate::cross_eq!(bad, "utf8typedpath/utf8typedpathbuf", eq, pa, pb.to_path_buf());
+                // a typed path against a plain string: same text
+                let seq = x == y;
+                crate::cross_eq!(bad, "utf8typedpath/str", seq, pa, *y);
+                crate::cross_eq!(bad, "utf8typedpath/&str", seq, pa, y);
+                crate::cross_eq!(bad, "utf8typedpathbuf/str", seq, pa.to_path_buf(), *y);
+                crate::cross_eq!(bad, "utf8typedpathbuf/&str", seq, pa.to_path_buf(), y);
+            }
+        }
+        _ => {}
+    }
+}
+
 macro_rules! fam {
     ($f:ident, $suffix:expr, $args:expr) => {
         match $suffix {
@@ -427,6 +552,34 @@ macro_rules! fam {
             "p8" => $f::<P8>($args),
             #[cfg(all(feature = "std", unix))]
             "sd" => $f::<SD>($args),
+            _ => c("unknownfamily", vec![]),
+        }
+    };
+}
+
+macro_rules! fam_s {
+    ($f:ident, $suffix:expr, $args:expr) => {
+        match $suffix {
+            "u" => $f::<UB>($suffix, $args),
+            "w" => $f::<WB>($suffix, $args),
+            "u8" => $f::<U8>($suffix, $args),
+            "w8" => $f::<W8>($suffix, $args),
+            "tu" => $f::<TU>($suffix, $args),
+            "tw" => $f::<TW>($suffix, $args),
+            "t8u" => $f::<T8U>($suffix, $args),
+            "t8w" => $f::<T8W>($suffix, $args),
+            "bu" => $f::<BU>($suffix, $args),
+            "bw" => $f::<BW>($suffix, $args),
+            "b8u" => $f::<B8U>($suffix, $args),
+            "b8w" => $f::<B8W>($suffix, $args),
+            "tbu" => $f::<TBU>($suffix, $args),
+            "tbw" => $f::<TBW>($suffix, $args),
+            "tb8u" => $f::<TB8U>($suffix, $args),
+            "tb8w" => $f::<TB8W>($suffix, $args),
+            "pu" => $f::<PB>($suffix, $args),
+            "p8" => $f::<P8>($suffix, $args),
+            #[cfg(all(feature = "std", unix))]
+            "sd" => $f::<SD>($suffix, $args),
             _ => c("unknownfamily", vec![]),
         }
     };
@@ -473,6 +626,7 @@ pub fn dispatch(op: &str, args: &[Val]) -> Val {
         "c19p" => crate::conv::c19p(suffix, args),
         "c16" => c16(suffix, args),
         "c17" => fam!(c17, suffix, args),
+        "cons" => fam_s!(cons, suffix, args),
         _ => c("unknownop", vec![]),
     }
 }
